@@ -22,6 +22,9 @@ BY_CONSTRUCTION = {
 CAUGHT_BY_OTHER = {
     # the change is to `filter -line-nums` with several ranges (range_merge): the subject of C13 (C05 states it as outside
     # its claim and refers to C13), whose check catches it
+    'C10-r7m1': ('C05', 'the change is the any / all slip in the is-identity attribute of a `|` sequence (the same diff as C05-r4m1, written '
+                        'again by an author who saw only C10\'s earlier changes): C05 K9 checks that attribute; C10 observes it only through '
+                        'programs whose accumulated transformations include `identity`, which its catalogue does not have'),
     'C05-r6m1': ('C13', 'the change is to the merging of several ranges of `filter -line-nums`, which C05 states as outside its claim '
                         '(line selection is C13)'),
 }
